@@ -1,6 +1,7 @@
 package props
 
 import (
+	"strings"
 	"bufio"
 	"encoding/binary"
 	"encoding/json"
@@ -223,6 +224,7 @@ func explore(t *testing.T, p Property, job Job, out *outWriter) {
 		sum.Runs++
 		if dump != nil {
 			fmt.Fprintf(dump, "%d %016x %016x %d %v\n", idx, res.SchedHash, res.EventHash, res.Steps, res.Violation != nil)
+			os.WriteFile(fmt.Sprintf("%s.ev%d", job.DumpRuns, idx), []byte(strings.Join(res.Events, "\n")), 0o644)
 		}
 		sum.Steps += int64(res.Steps)
 		sum.SimTimeS += res.SimTime.Seconds()
